@@ -417,4 +417,21 @@ def rule_start_value(ctx: Ctx):
     c11.rule_target(ctx, rule="C10.access")
 
 
-RULES = [rule_access, rule_written_value, rule_mapping, rule_noshadow, rule_falsy, rule_active, rule_start_value]
+def rule_default_model(ctx: Ctx):
+    """C10.access: the default model is a plain object that can hold the state under *any* `state_field`: no `__slots__`, no
+    attribute hooks."""
+    rep = ctx.rep
+    m = ctx.p.classes.get("Model")
+    if m is None:
+        raise AnalysisError("anchor lost: class Model (the default model)")
+    restricted = sorted(a for a in m.class_assigns if a in ("__slots__",)) + sorted(
+        n for n in m.methods if n in ("__setattr__", "__getattr__", "__getattribute__", "__delattr__", "__set__"))
+    rep.check(not restricted, "C10.access", f"{m.module.rel}:{m.node.lineno} Model", "the default model accepts the state under whatever "
+              "`state_field` names (a plain object: no __slots__, no attribute hooks)", f"{m.module.rel}::Model",
+              f"class Model defines {restricted}" if restricted else "plain class")
+    bases_ok = all(b in ("object",) for b in m.bases)
+    rep.check(bases_ok, "C10.access", f"{m.module.rel}:{m.node.lineno} Model", "the default model has no base class that could restrict attributes",
+              f"{m.module.rel}::Model", f"class Model({', '.join(m.bases)})")
+
+
+RULES = [rule_access, rule_written_value, rule_mapping, rule_noshadow, rule_falsy, rule_active, rule_start_value, rule_default_model]
